@@ -200,6 +200,12 @@ def result_problems(fmt, text, res):
             return "malformed-tree", "; ".join(p)
         if t.taxon_namespace is None:
             return "malformed-tree", "tree without namespace"
+        seen = set()
+        for nd in t.preorder_node_iter():
+            if nd.taxon is not None:
+                if id(nd.taxon) in seen:
+                    return "malformed-tree", "one taxon (%r) sits on two nodes of a tree returned by a reader" % (nd.taxon.label,)
+                seen.add(id(nd.taxon))
         for nd in t.leaf_node_iter():
             if nd.taxon is not None and nd.taxon not in t.taxon_namespace._taxa:
                 return "malformed-tree", "leaf taxon outside the tree's namespace"
@@ -363,9 +369,23 @@ def single_edits(text):
         yield "drop-span", text[:a + 1] + text[b + 1:]
 
 
+# documents in which two nodes of one tree resolve to the same taxon through different symbols
+# (case variants under the case-insensitive default, TRANSLATE token and label, taxon number and label)
+SAME_TAXON_DOCS = [
+    ("newick", "(a,A);"), ("newick", "((a,b),A);"), ("newick", "(a,(b,(c,B)));"), ("newick", "(a,a);"), ("newick", "((a,b),(c,a));"),
+    ("newick", "(a_b,'a b');"), ("newick", "('a',a);"), ("newick", "(a,b);(a,A);"),
+    ("nexus", "#NEXUS\nBEGIN TREES;\nTRANSLATE 1 a, 2 b;\nTREE t = (1,a);\nEND;\n"),
+    ("nexus", "#NEXUS\nBEGIN TREES;\nTRANSLATE 1 a, 2 b;\nTREE t = ((1,2),A);\nEND;\n"),
+    ("nexus", "#NEXUS\nBEGIN TAXA;\nDIMENSIONS NTAX=2;\nTAXLABELS a b;\nEND;\nBEGIN TREES;\nTREE t = (1,a);\nEND;\n"),
+    ("nexus", "#NEXUS\nBEGIN TAXA;\nDIMENSIONS NTAX=2;\nTAXLABELS a b;\nEND;\nBEGIN TREES;\nTREE t = (a,(b,A));\nEND;\n"),
+    ("nexus", "#NEXUS\nBEGIN TAXA;\nDIMENSIONS NTAX=3;\nTAXLABELS a b c;\nEND;\nBEGIN TREES;\nTRANSLATE x a, y b, z c;\nTREE t = (x,(y,a));\nEND;\n"),
+    ("nexus", "#NEXUS\nBEGIN TREES;\nTREE t = (a,b);\nTREE u = (b,(a,B));\nEND;\n"),
+]
+
+
 def chunks(tier):
     b = bounds(tier)
-    out = []
+    out = [{"kind": "same-taxon-twice", "tier": tier}]
     for name in sorted(SEEDS):
         fmt, text = SEEDS[name]
         out.append({"kind": "prefix", "seed": name, "tier": tier})
@@ -438,6 +458,10 @@ def run_chunk(chunk, ctx):
                 ctx.count("short_strings")
                 run_text("str", "newick", s, ctx, False, "short-string")
         ctx.sample({"short_string_example": p + "a;"}, 1)
+    elif k == "same-taxon-twice":
+        for fmt, text in SAME_TAXON_DOCS:
+            ctx.count("same_taxon_twice_documents")
+            run_text("str" if fmt == "newick" else "tok", fmt, text, ctx, True, "same-taxon-twice")
     elif k == "newick-strings-short":
         for s in [""] + NEWICK_ALPHABET:
             ctx.count("short_strings")
